@@ -479,33 +479,6 @@ func (p *Pkg) defaultArmExpr(stmts []ast.Stmt, errResult types.Object) (ast.Expr
 	return nil, "default arm is neither a return nor an assignment of the error result"
 }
 
-func (p *Pkg) isErrInvalidMetricReturnOld(stmts []ast.Stmt, abv types.Object, errResult types.Object) (bool, string) {
-	if len(stmts) != 1 {
-		return false, fmt.Sprintf("default arm has %d statements, expected exactly one producing &ErrInvalidMetric{Abv: abv}", len(stmts))
-	}
-	var e ast.Expr
-	switch s := stmts[0].(type) {
-	case *ast.ReturnStmt:
-		if len(s.Results) == 0 {
-			return false, "default arm returns without an error"
-		}
-		e = s.Results[len(s.Results)-1]
-		if len(s.Results) == 2 {
-			if str, ok := constString(p.Info, s.Results[0]); !ok || str != "" {
-				return false, "default arm returns a non-empty value next to the error"
-			}
-		}
-	case *ast.AssignStmt:
-		if len(s.Lhs) != 1 || len(s.Rhs) != 1 || s.Tok != token.ASSIGN || errResult == nil || identObj(p.Info, s.Lhs[0]) != errResult {
-			return false, "default arm assigns something other than the error result"
-		}
-		e = s.Rhs[0]
-	default:
-		return false, "default arm is neither a return nor an assignment of the error result"
-	}
-	return p.isTypedErrPtr(e, "ErrInvalidMetric", abv)
-}
-
 // isTypedErrPtr checks e == &<TypeName>{Abv: <obj or literal>}.
 func (p *Pkg) isTypedErrPtr(e ast.Expr, typeName string, abv types.Object) (bool, string) {
 	u, ok := e.(*ast.UnaryExpr)
